@@ -116,9 +116,13 @@ def replay_chunk(args):
         e_rets, rel, e_out, e_tin = expected_of(plan, S, lay, drv)
         alld = drv.all_data(S)
         rng = random.Random("%s/%d" % (seed, idx))
-        for sname, pieces in slicings(lay, len(data), rng, thorough):
-            r = drv.drive(plan["api"], plan["flags"], data, pieces, plan["mode"])
-            keys.append("%s/%s/%s/%s/%s" % (fk[:10], plan["api"], ",".join(sorted(plan["flags"])), plan["mode"], sname))
+        runs = [(plan["api"], sn, pc) for sn, pc in slicings(lay, len(data), rng, thorough)]
+        if plan["api"] == "stream":
+            # the threaded .xz decoder (what the xz tool uses) has its own copy of the Stream Padding code
+            runs += [("stream_mt", sn, pc) for _, sn, pc in (runs if thorough else runs[:6])]
+        for rapi, sname, pieces in runs:
+            r = drv.drive(rapi, plan["flags"], data, pieces, plan["mode"])
+            keys.append("%s/%s/%s/%s/%s" % (fk[:10], rapi, ",".join(sorted(plan["flags"])), plan["mode"], sname))
             bad = None
             if not r["ok"]:
                 bad = ("acct", "ok", "broken")
@@ -142,7 +146,7 @@ def replay_chunk(args):
                 if bad[0] == "machinery":
                     mism.append(dict(machinery="%s %s" % bad[1:], plan=plan))
                 else:
-                    key = classify(plan, bad[0], bad[1], bad[2], bool(pieces))
+                    key = classify(dict(plan, api=rapi), bad[0], bad[1], bad[2], bool(pieces))
                     mism.append(dict(key=key, plan=plan, slicing=sname, pieces=pieces, file=data.hex(),
                                      expected=dict(rets=e_rets, out=None if e_out is None else e_out.hex(), outRel=rel, tin=e_tin),
                                      got=dict(rets=r["rets"], out=r["out"].hex(), tin=r["total_in"])))
@@ -313,14 +317,24 @@ def cli_jobs(plans, seed, quick, rng):
                 ex = 1
             jobs.append((tool, argv, data, ex, e_out, plan))
     if quick:
+        # at most two files of every structural class per tool configuration
         rng.shuffle(jobs)
         keep = []; per = {}
         for j in jobs:
-            fam = (j[0], tuple(j[1]), j[5]["fd"]["fmt"], j[3])
-            if per.get(fam, 0) < 14:
+            fam = (j[0], tuple(j[1]), j[3], file_class(j[5]["fd"]))
+            if per.get(fam, 0) < 2:
                 per[fam] = per.get(fam, 0) + 1; keep.append(j)
         jobs = keep
     return jobs
+
+def file_class(fd):
+    if fd["fmt"] == "alone":
+        return ("alone", fd["usz"], fd["eopm"], fd["trail"] > 0, fd["cut"] > 0, fd["props"] == 93, fd["dict"] == [0, 1], fd["n"])
+    if fd["fmt"] == "lzip":
+        return ("lzip", len(fd["mem"]), tuple(fd["trail"][:5]), fd["cut"] > 0,
+                tuple((m["ver"], m["crc"], m["dsz"], m["msz"], m["magic"] == [76, 90, 73, 80], m["ds"] == 12) for m in fd["mem"]))
+    return ("xz", len(fd["str"]), len(fd["trail"]), fd["cut"] > 0,
+            tuple((s["check"], s["hdr"], s["cbad"], s["pad"] % 4) for s in fd["str"]))
 
 def run_cli(ctx, plans):
     cli = build.cli()
@@ -361,10 +375,37 @@ def run_cli(ctx, plans):
     return n
 
 # ------------------------------------------------------------------------------------------------ main
+def replay_one(ctx, L):
+    """./check C16 --replay FILE: run the recorded case again against the current tree"""
+    from harness.pydrv import c16drv as drv
+    rp = json.load(open(ctx.replay))["replay"]
+    if rp.get("kind") == "plan":
+        plan = rp["plan"]; data = bytes.fromhex(rp["file"])
+        r = drv.drive(plan["api"], plan["flags"], data, rp["pieces"], plan["mode"])
+        got = dict(rets=r["rets"], out=r["out"].hex(), tin=r["total_in"])
+        exp = rp["expected"]
+        ctx.case(key=("replay", ctx.replay))
+        ctx.log("replay %s slicing %s: expected %s got %s" % (plan["api"], rp["slicing"], exp, got))
+        same = got["rets"] == exp["rets"] and (exp["outRel"] != "eq" or exp["out"] is None or got["out"] == exp["out"]) \
+            and (exp["tin"] is None or got["tin"] == exp["tin"])
+        if not same:
+            ctx.violation(rp["key"], "still differs: expected %s got %s" % (exp, got), rp)
+    elif rp.get("kind") == "cli":
+        cli = build.cli()
+        env = dict(os.environ); env.pop("LD_PRELOAD", None); env["LC_ALL"] = "C"
+        p = subprocess.run([cli[rp["tool"]]] + rp["argv"], input=bytes.fromhex(rp["file"]), stdout=subprocess.PIPE,
+                           stderr=subprocess.PIPE, env=env, timeout=60)
+        ctx.case(key=("replay", ctx.replay))
+        ctx.log("replay %s %s: exit %d stdout %d bytes stderr %r" % (rp["tool"], rp["argv"], p.returncode, len(p.stdout), p.stderr[:200]))
+        ctx.notes.append("cli replay is informative only: compare with the model values recorded in the replay file")
+    return ctx.finish(rule="one recorded case re-executed", trusted=["ctypes driver"])
+
 def run(ctx):
     from harness.pydrv import lz
     L = build.lib("asan")
     lz.load(L["so"])
+    if ctx.replay:
+        return replay_one(ctx, L)
     quick = ctx.quick
     res = {}
     cfgs = []
